@@ -402,8 +402,7 @@ def check_controls(ck, ctl):
 
 
 CONF_FRAGS = lambda tree: [[], [".", "."], ["a"], ["sub"]] + CONFUSABLE_FRAGS  # noqa: E731
-CTL_FRAGS = lambda tree: [[], [".", "."], ["a"], ["sub"], BSX, ["\\"], tree.abs_frag, [".", ".", "SPC"],  # noqa: E731
-                          ["TAB", ".", "."]]
+CTL_FRAGS = lambda tree: [[], [".", "."], ["a"], ["sub"], BSX, ["\\"], tree.abs_frag, [".", ".", "SPC"]]  # noqa: E731
 PAD_FRAGS = lambda tree: [[], [".", "."], ["a"], ["sub"]] + PADDED_FRAGS  # noqa: E731
 
 
@@ -438,7 +437,7 @@ def pad_tlc(ck, tree):
 def part_fs(ck, tree, res, rconf, rpad):
     r0, r, maxsegs = res
     t1 = time.time()
-    ck.add_tlc(r0, "Loaders: <= 2 segments, POSIX + Windows, 4 switch settings (liveness, coverage)")
+    ck.add_tlc(r0, "Loaders: <= 2 segments, POSIX + Windows, 5 switch settings (liveness, coverage)")
     ck.require_coverage(r0, ["Grow", "Start", "SplitReject", "SplitKeep", "SplitDrop", "SplitDone", "TryDirHit",
                              "TryDirMiss", "NotFound"])
     ctl = behaviours(r0)
